@@ -11,7 +11,7 @@ def run_check(tier, seed, replay=None):
     c.add_model(r, "frame classes x capacities around the expanded size")
     tr = os.path.join(wd, "zstd.trace")
     run_quiet(["zstd-record", "--seed", int(replay_seed(replay, seed)), "--files", 14 if q else 150, "--out", tr,
-               "--maxlen", 30000 if q else 200000])
+               "--maxlen", 30000 if q else 200000, "--noise", 1])
     resets = [x for x in read_ndjson(tr) if x["e"] == "Reset"]
     acc, rej, states = validate_runs("Trace_Zstd", wd, tr, timeout=3000)
     c.cov["traces_validated_against_impl"] += acc
